@@ -88,7 +88,50 @@ def new_helpers(prog, vocab):
     for v in vocab:
         if v not in present and not v.startswith("<") and v in sigs:
             moved_pool.setdefault(_tailkey(v), []).append((v, [_canon_generic(x) for x in sigs[v]]))
-    # when several new functions could take the place of one vanished function (same signature), the one that is called from
+    # when several new functions could take the place of the vanished functions of a module / impl (same signature), the
+    # assignment is by what the functions *do*: the pinned callee set of the vanished function (rules/callees.json) is compared
+    # with the candidate's; a candidate without any overlap while another candidate has one is not the renamed function
+    try:
+        with open(_os.path.join(_os.path.dirname(_os.path.abspath(__file__)), "callees.json")) as fh_:
+            pinned_callees = _json.load(fh_)
+    except Exception:
+        pinned_callees = {}
+
+    def _callee_names(b_):
+        out_ = set()
+        for bd_ in [b_] + prog.closures_of(b_):
+            for _, _, fr_ in bd_.iter_calls():
+                if fr_ is None:
+                    continue
+                full_ = mir.fn_name(fr_)
+                n_ = "::".join(strip_generics(full_).replace("<", "").replace(">", "").split("::")[-2:])
+                out_.add(n_)
+        return out_
+    not_renamed = set()
+    by_pre = {}
+    for b_ in prog.bodies:
+        if b_.kind in ("fn", "assoc_fn") and strip_generics(b_.path) not in vocab and not strip_generics(b_.path).startswith("<"):
+            by_pre.setdefault(strip_generics(b_.path).rsplit("::", 1)[0], []).append(b_)
+    for pre_, cands_ in by_pre.items():
+        gone_ = [v for v in vocab if v not in present and v.rsplit("::", 1)[0] == pre_ and v in sigs and v in pinned_callees]
+        if not gone_ or len(cands_) < 2:
+            continue
+        sig_of = lambda ps_, r_: [_canon_generic(x) for x in ps_] + (["-> " + _canon_generic(r_)] if r_ is not None else [])
+        for v in gone_:
+            vs_ = sig_of(sigs[v], rets.get(v))
+            same_ = [c_ for c_ in cands_ if sig_of([c_.local_ty(i) for i in range(1, c_.arg_count + 1)], c_.local_ty(0) if v in rets else None) == vs_]
+            if len(same_) < 2:
+                continue
+            want_ = {n_ for n_ in pinned_callees[v] if not n_.startswith(("Mut::", "Res::", "ResMut::"))}
+            if not want_:
+                continue
+            score_ = {c_.path: len(want_ & {x_ for x_ in _callee_names(c_)}) for c_ in same_}
+            best_ = max(score_.values())
+            if best_ > 0:
+                for c_ in same_:
+                    if score_[c_.path] == 0:
+                        not_renamed.add(c_.path)
+    # ... then, the one that is called from
     # outside its own impl / module is the renamed one - a helper that only its siblings call is a helper
     def _rank(b_):
         sp2_ = strip_generics(b_.path)
@@ -130,7 +173,7 @@ def new_helpers(prog, vocab):
                 out[b.path] = b
             continue
         pre = strip_generics(b.path).rsplit("::", 1)[0]
-        if missing.get(pre, 0) > 0:
+        if missing.get(pre, 0) > 0 and b.path not in not_renamed:
             # renamed = takes the place of a vanished function *with the same parameter types* (when the pinned
             # signatures are known); a new function with another signature is a helper even if functions vanished
             cs_ = [_canon_generic(b.local_ty(i)) for i in range(1, b.arg_count + 1)]
